@@ -127,7 +127,7 @@ def wrapper(kind, impl, in_mask, out_mask, variant=0):
 
 def compare(rep, before_names, expected, after, what, data):
     """expected: {s position: term} built over variables named like lanes.symbolize(tag='i') does; after: transformed circuit."""
-    names_after = [n.name for n in after.s_nodes]
+    names_after = [n.name if (n.circuit is after and n.index < len(after.nodes) and after.nodes[n.index] is n) else f'<{n.name}: not in circuit>' for n in after.s_nodes]
     if names_after != before_names:
         return ('names', f'{what}: ports/state elements changed from {before_names} to {names_after}')
     if not expected:
@@ -204,7 +204,7 @@ def finish(rep, res, data, key, name):
     ok, what = replay(d)
     if ok and kind == 'function' and explained_by_sized(d):
         key, what = 'shape=sized-and-trailing-open-pin', f'{name}: {what} (sized AND/NAND primitive with a trailing open pin takes its arity from the connected pins instead of reading 0)'
-    if ok and kind == 'names' and data.get('mode') == 'subst' and not any(data['out_mask']):
+    if ok and kind == 'names' and data.get('mode') == 'subst' and not any(data['out_mask']) and 'not in circuit' not in what and "'u'" in what.split('->')[0] and "'u'" not in what.split('->')[-1]:
         key, kind = 'shape=state-cell-with-all-outputs-open-removed', 'function'
     if ok: rep.violation(key if kind == 'function' else key + '/s_nodes', what, d)
     else: rep.error(f'{name}: counterexample does not replay ({kind})')
@@ -318,7 +318,7 @@ def replay(data):
         except KeyError:
             na = [n.name for n in after.s_nodes]
             return na != names, f'{data["lib"]}.{data["kind"]}: state elements appear only after resolution: s_nodes {names} -> {na}'
-    na = [n.name for n in after.s_nodes]
+    na = [n.name if (n.circuit is after and n.index < len(after.nodes) and after.nodes[n.index] is n) else f'<{n.name}: not in circuit>' for n in after.s_nodes]
     if na != names: return True, f'ports/state elements changed: {names} -> {na}'
     s = LogicSim(after, 3, m=2)
     for (i, p, b), v in in_bytes.items(): s.s[0, i, p, b] = v
